@@ -1415,6 +1415,14 @@ def rel_join(
         _plain_join(query, right_rvar, ctx=ctx)
 
 
+def _ordered_path_bonds(
+    query: pgast.BaseRelation,
+) -> list[tuple[irast.PathId, bool]]:
+    # path_bonds is a set whose iteration order depends on object
+    # identity and on string hashing; the join condition must not.
+    return sorted(query.path_bonds, key=lambda b: (str(b[0]), b[1]))
+
+
 def _plain_join(
     query: pgast.SelectStmt,
     right_rvar: pgast.PathRangeVar,
@@ -1423,7 +1431,7 @@ def _plain_join(
 ) -> None:
     condition = None
 
-    for path_id, iterator_var in right_rvar.query.path_bonds:
+    for path_id, iterator_var in _ordered_path_bonds(right_rvar.query):
         lref = None
         aspect = (
             pgce.PathAspect.ITERATOR
@@ -1479,7 +1487,7 @@ def _lateral_union_join(
     for component in astutils.each_query_in_set(right_rvar.subquery):
         condition = None
 
-        for path_id, iterator_var in right_rvar.query.path_bonds:
+        for path_id, iterator_var in _ordered_path_bonds(right_rvar.query):
             aspect = (
                 pgce.PathAspect.ITERATOR
                 if iterator_var else
@@ -2390,9 +2398,12 @@ def _get_ptrref_descendants(
         include_descendants = False
 
         descendants: list[irast.PointerRef] = []
-        descendants.extend(
-            cast(Iterable[irast.PointerRef], ptrref.descendants())
-        )
+        # descendants() is a set of objects hashed by identity: fix the
+        # order, or the UNION arms come out differently in every compilation
+        descendants.extend(sorted(
+            cast(Iterable[irast.PointerRef], ptrref.descendants()),
+            key=lambda ref: ref.id,
+        ))
         descendants.append(ptrref)
         assert isinstance(ptrref, irast.PointerRef)
 
